@@ -142,6 +142,8 @@ func runC09(p *eng.Prog, r *eng.Report, tier string) {
 	// C09.21 addresses parsed from peer input keep their part boundaries inside the buffer
 	c11LocalLenIsEnforcedLen(c, "C09.21")
 	pageTurnClosesFirst(c, "C09.22")
+	nv := valueReceiverWritesKept(c, "C09.23")
+	c.r.Floor("C09.23", "stores to receiver fields in methods of handle types", nv, 10)
 	nTol := valueUsedAfterError(c, "C09.15", c.allFns())
 	r.Note("C09.15: %d error-tolerant uses of a (value, error) result examined", nTol)
 	c06JoinCtx(c)
